@@ -63,6 +63,7 @@ def main():
                         r["checks"][c] = {"exit": rc, "violation": vio[:1], "tail": out.splitlines()[-1:]}
             finally:
                 sh(["git", "-C", "/repo", "checkout", "--", "."])
+                sh([sys.executable, str(VERIF / "tools" / "py2lean.py")])   # regenerated files follow /repo
             r["caught"] = any(v["exit"] == 1 for v in r["checks"].values())
             results.append(r)
             print(json.dumps(r))
